@@ -87,10 +87,20 @@ async fn run_real(line: &str) -> String {
     let good = unhex(t[2]);
     // a bound socket that does not listen yet refuses connections while keeping the port ours; "refused" outcomes are
     // therefore a prefix of the script (the generator's rule)
-    let sock = tokio::net::TcpSocket::new_v4().unwrap();
-    sock.bind("127.0.0.1:0".parse().unwrap()).unwrap();
-    let port = sock.local_addr().unwrap().port();
+    // (a socket that cannot be set up is no verdict on the client: SKIP)
+    let sock = match tokio::net::TcpSocket::new_v4() {
+        Ok(s) => s,
+        Err(_) => return "SKIP".to_string(),
+    };
+    if sock.bind("127.0.0.1:0".parse().unwrap()).is_err() {
+        return "SKIP".to_string();
+    }
+    let port = match sock.local_addr() {
+        Ok(a) => a.port(),
+        Err(_) => return "SKIP".to_string(),
+    };
     let mut sock = Some(sock);
+    let mut dead = false;
     let announce = format!("http://127.0.0.1:{}/announce", port);
     let doc = format!("d8:announce{}:{}4:infod6:lengthi7e4:name1:f12:piece lengthi4e6:pieces40:AAAAAAAAAAAAAAAAAAAABBBBBBBBBBBBBBBBBBBBee", announce.len(), announce).into_bytes();
     let m = Metainfo::from_bencode(&doc).expect("harness torrent must parse");
@@ -107,7 +117,13 @@ async fn run_real(line: &str) -> String {
     while i < phases.len() {
         let ph = phases[i];
         if ph != "refused" && listener.is_none() {
-            listener = Some(sock.take().expect("refused after a listening phase").listen(16).unwrap());
+            listener = match sock.take().map(|s| s.listen(16)) {
+                Some(Ok(l)) => Some(l),
+                _ => {
+                    run.abort();
+                    return "SKIP".to_string();
+                }
+            };
         }
         // serve one request (if something listens) and wait for the client's verdict on this attempt
         let serve = async {
@@ -154,7 +170,6 @@ async fn run_real(line: &str) -> String {
         };
         tokio::pin!(serve);
         let mut served = 0usize;
-        let mut dead = false;
         let verdict = loop {
             tokio::select! {
                 k = &mut serve, if served == 0 => served = k,
